@@ -19,22 +19,59 @@ mutual
     | _ => none
 end
 
+def parsePath : List Sexp → Option (List PathElem)
+  | [] => some []
+  | .list [.atom k, n] :: rest => do
+    let n ← n.nat?
+    let e ← match k with
+      | "m" => some (PathElem.member n) | "i" => some (.index n)
+      | "x" => some (.column n) | "c" => some (.comp n) | _ => none
+    some (e :: (← parsePath rest))
+  | _ => none
+
 def showList (xs : List Nat) : String := "[" ++ ", ".intercalate (xs.map toString) ++ "]"
 
 /-- One case per line: `(c07 <ty>)` ↦ `ir=[..] spv=[..]` for the requested model
 (`spec`, `fixed`, `pinned`). -/
 def handle (model : String) (line : String) : String :=
   match Sexp.parseLine line with
-  | some [.list [.atom "c07", t]] =>
+  | some [.list [.atom "c07", t, .list (.atom "paths" :: ps)]] =>
     match parseTy t with
     | some ty =>
+      let offs := ps.map fun p => match p with
+        | .list (.atom "p" :: es) => (parsePath es).bind (offsetOfPath ty)
+        | _ => none
+      let hl := if offs.all Option.isSome then showList (offs.filterMap id) else "bad-path"
       if !wf ty then "bad-case not-wf" else
       let d := match model with
         | "pinned" => nagaDump false ty
         | "fixed" => nagaDump true ty
         | _ => specDump ty
-      s!"ir={showList d} spv={showList (specSpvGlobal ty)}"
+      s!"ir={showList d} spv={showList (specSpvGlobal ty)} hlsl={hl} msl={showList (specDumpNoLeaf ty)}"
     | none => "bad-case parse"
+  | _ => "bad-case line"
+
+def parseDecl : Sexp → Option MslDecl
+  | .list (.atom "struct" :: .atom n :: fs) =>
+    let fields := fs.filterMap fun f => match f with
+      | .list [.atom "f", .atom t, .atom nm, l] => l.nat?.map fun l => { ty := t, name := nm, len := l : MslField }
+      | _ => none
+    some { name := n, fields := fields, isTypedef := false, parsed := fields.length == fs.length }
+  | .list [.atom "typedef", .atom n, .atom t, l] => do
+    some { name := n, fields := [{ ty := t, name := "", len := (← l.nat?) }], isTypedef := true }
+  | _ => none
+
+/-- `(msl "<top>" decl...)` ↦ the C++-layout numbers of the declarations the MSL back end wrote. -/
+def handleMsl (line : String) : String :=
+  match Sexp.parseLine line with
+  | some [.list (.atom "msl" :: .atom top :: ds)] =>
+    match ds.mapM parseDecl with
+    | some decls =>
+      match cppDump decls 64 top with
+      | some d => showList d
+      | none => "unreadable-declarations"
+    | none => "bad-case decl"
+  | some [.list (.atom "error" :: _)] => "error"
   | _ => "bad-case line"
 
 end Naga.Driver.C07
